@@ -14,6 +14,20 @@ Open Scope nat_scope.
 
 (* ---- tables ---- *)
 
+(* the translator read everything it looks at; Array / Constant / Fn each have the iter / par_iter / to_slice
+   accessor shapes that [denote] mirrors (slice of len elements; value read once and repeated; i_th(context, i)
+   for i in 0..len) *)
+Theorem ffi_translator_clean : ffi_translator_errors = [].
+Proof. exact translator_clean. Qed.
+Theorem ffi_accessors_as_modelled :
+  ffi_data_accessors =
+  [("Array", "slice"); ("Array", "par_slice"); ("Array", "to_slice");
+   ("Constant", "repeat"); ("Constant", "par_repeat"); ("Constant", "to_slice");
+   ("Fn", "call"); ("Fn", "par_call"); ("Fn", "to_slice")]%string.
+Proof. exact accessors_as_modelled. Qed.
+Print Assumptions ffi_translator_clean.
+Print Assumptions ffi_accessors_as_modelled.
+
 (* Rust #[repr(C)] declaration order = coupe.h declaration order (error codes and type tags) *)
 Theorem ffi_header_enum_agrees :
   map (header_name "COUPE_ERR_") ffi_rust_error_enum = ffi_header_error_enum
